@@ -480,6 +480,36 @@ class World:
         self.reads.append(r)
         return r
 
+    def to_eqx(self, r):
+        """Rewrites the M operations of read r as =/X runs (minimap2 --eqx, pbmm2 style); everything else stays."""
+        if r.chrom is None:
+            return r
+        ref = self.chroms[r.chrom]
+        out = []
+        qpos, rpos = 0, r.pos0
+        for op, ln in r.cigar:
+            if op == 0:
+                run_op, run_len = None, 0
+                for k in range(ln):
+                    o = 7 if r.seq[qpos + k].upper() == ref[rpos + k].upper() else 8
+                    if o == run_op:
+                        run_len += 1
+                    else:
+                        if run_op is not None:
+                            out.append((run_op, run_len))
+                        run_op, run_len = o, 1
+                out.append((run_op, run_len))
+                qpos += ln
+                rpos += ln
+            else:
+                out.append((op, ln))
+                if op in (1, 4):
+                    qpos += ln
+                elif op in (2, 3):
+                    rpos += ln
+        r.cigar = out
+        return r
+
     def read_from_transcript(self, t, mode="full", jitter=0, polya=False, indels=0, min_overhang=30, **kw):
         """Derive aligned exons from transcript t.
         mode: full | trunc5 | trunc3 | trunc_both | mono (inside one exon)
